@@ -57,7 +57,7 @@ ERR = {"refused": lambda: ConnectionRefusedError(111, "refused"), "timeout": lam
 class _T:
     def __init__(self, clock):
         self.clock = clock
-        self._origin = float(clock.now) - 4321.5
+        self._origin = float(clock.now) - 12.5      # like a real machine: the monotonic clock reads far less than the wall clock
 
     def time(self):
         return float(self.clock.now)
